@@ -92,15 +92,34 @@ def date_add_cal_claim(sign):
 B_DATE = {0: (-9999, 9999), 1: (1, 12), 2: (1, 31)}
 B_CAL = {**B_DATE, 4: (0, LIM["years"]), 5: (0, LIM["months"]), 6: (0, LIM["weeks"]), 7: (0, LIM["days"])}
 
+# magnitudes below which no 64-bit product or partial sum can overflow (so the F2 role is empty there)
+B_SPAN_T_SMALL = {5: (0, 2000000), 6: (0, 100000000), 7: (0, 9000000000), 8: (0, 9000000000000), 9: (0, 1000000000000000), 10: (0, 1000000000000000000)}
+B_TS_SMALL = {**B_TIME, **B_SPAN_T_SMALL}
+
+
+def span_time_small(a, k):
+    return And([in_range(a[k + 1 + i], 0, B_SPAN_T_SMALL[5 + i][1]) for i in range(6)])
+
+
 KERNELS = [
-    K("c08::k_time_wrapping_add_span", pre=lambda a: And(time_ok(a), span_time_ok(a, 4)),
-      claims=[("Time::wrapping_add(Span) == (t + sum of units) mod 24h exactly",
+    K("c08::k_time_wrapping_add_span", pre=lambda a: And(time_ok(a), span_time_small(a, 4)),
+      claims=[("Time::wrapping_add(Span) == (t + sum of units) mod 24h exactly (unit magnitudes below the 64-bit overflow region)",
                lambda a, o: And(o.is_some, time_is(o.some, (tod(a) + span_time_total(a, 4)) % DAY_NS)))],
-      bounds=B_TS, known=[("F2", role_f2(4))]),
-    K("c08::k_time_wrapping_sub_span", pre=lambda a: And(time_ok(a), span_time_ok(a, 4)),
-      claims=[("Time::wrapping_sub(Span) == (t - sum of units) mod 24h exactly",
+      bounds=B_TS_SMALL),
+    K("c08::k_time_wrapping_sub_span", pre=lambda a: And(time_ok(a), span_time_small(a, 4)),
+      claims=[("Time::wrapping_sub(Span) == (t - sum of units) mod 24h exactly (unit magnitudes below the 64-bit overflow region)",
                lambda a, o: And(o.is_some, time_is(o.some, (tod(a) - span_time_total(a, 4)) % DAY_NS)))],
-      bounds=B_TS, known=[("F2", role_f2(4, -1))]),
+      bounds=B_TS_SMALL),
+    K("c08::k_time_wrapping_add_span", pre=lambda a: And(time_ok(a), span_time_ok(a, 4)),
+      claims=[("Time::wrapping_add(Span) == (t + sum of units) mod 24h exactly", lambda a, o: And(o.is_some, time_is(o.some, (tod(a) + span_time_total(a, 4)) % DAY_NS)))],
+      bounds=B_TS, known=[("F2", role_f2(4))], probe_only=True),
+    K("c08::k_time_wrapping_sub_span", pre=lambda a: And(time_ok(a), span_time_ok(a, 4)),
+      claims=[("Time::wrapping_sub(Span) == (t - sum of units) mod 24h exactly", lambda a, o: And(o.is_some, time_is(o.some, (tod(a) - span_time_total(a, 4)) % DAY_NS)))],
+      bounds=B_TS, known=[("F2", role_f2(4, -1))], probe_only=True),
+    K("c08::k_time_wrapping_add_span", pre=lambda a: And(time_ok(a), span_time_ok(a, 4)),
+      claims=[("Time::wrapping_add(Span) == (t + sum of units) mod 24h exactly, outside the F2 role (full unit limits)",
+               lambda a, o: And(o.is_some, time_is(o.some, (tod(a) + span_time_total(a, 4)) % DAY_NS)))],
+      bounds=B_TS, known=[("F2", role_f2(4))], tier="thorough", timeout=1800),
     K("c08::k_time_checked_add_span", pre=lambda a: And(time_ok(a), span_time_ok(a, 4)),
       claims=[("Time::checked_add(Span) fails exactly when the result leaves the day",
                lambda a, o: And(o.is_some, opt_is(o.some, in_range(tod(a) + span_time_total(a, 4), 0, DAY_NS - 1),
@@ -131,12 +150,12 @@ KERNELS = [
       claims=[("Date::checked_add(years, months): month arithmetic with the day clamped to the target month; Err iff year out of range",
                lambda a, o: And(o.is_some, opt_is(o.some, in_range(ref_add_months(a[0], a[1], a[2], sgn(a[3]) * a[4], sgn(a[3]) * a[5])[0], -9999, 9999),
                                                   lambda r: eq3(r.ints(), ref_add_months(a[0], a[1], a[2], sgn(a[3]) * a[4], sgn(a[3]) * a[5])))))],
-      bounds={**B_DATE, 4: (0, LIM["years"]), 5: (0, LIM["months"])}),
+      bounds={**B_DATE, 4: (0, LIM["years"]), 5: (0, LIM["months"])}, split=(0, {"quick": 8, "thorough": 32}), timeout=240),
     K("c08::k_date_add_wd", pre=lambda a: And(date_ok(a), in_range(a[4], 0, LIM["weeks"]), in_range(a[5], 0, LIM["days"])),
       claims=[("Date::checked_add(weeks, days) == epoch day + 7w + d; Err iff outside -9999-01-01..=9999-12-31",
                lambda a, o: And(o.is_some, opt_is(o.some[0], in_range(o.some[1].i + sgn(a[3]) * (7 * a[4] + a[5]), MIN_DAY, MAX_DAY),
                                                   lambda r: And(ref_valid_date(*r[0].ints()), r[1].i == o.some[1].i + sgn(a[3]) * (7 * a[4] + a[5])))))],
-      bounds={**B_DATE, 4: (0, LIM["weeks"]), 5: (0, LIM["days"])}),
+      bounds={**B_DATE, 4: (0, LIM["weeks"]), 5: (0, LIM["days"])}, split=(0, {"quick": 8, "thorough": 32}), timeout=240),
     K("c08::k_date_add_cal", pre=lambda a: And(date_ok(a), cal_ok(a, 3)),
       claims=[("Date::checked_add(years, months, weeks, days): months first with day clamp, then days on epoch days; Err iff out of range",
                date_add_cal_claim(1))],
